@@ -63,3 +63,13 @@ fn blob_hash_bytes_identity() {
     assert!(*h.as_bytes() == a);
     assert!(h == BlobHash(a));
 }
+
+/// BlobHash equality is byte-wise equality of the 32 bytes, for every pair (full domain, no loop bound involved)
+#[kani::proof]
+fn blob_hash_eq_is_bytewise() {
+    let a: [u8; 32] = kani::any();
+    let b: [u8; 32] = kani::any();
+    let same = a == b;
+    assert!((BlobHash(a) == BlobHash(b)) == same);
+    assert!((BlobHash(a) != BlobHash(b)) == !same);
+}
